@@ -2,7 +2,7 @@
 From Coq Require Import ZArith List Bool.
 From Coq Require Import Permutation Sorted.
 From CTM Require Import Base.Sx Model.Tree Model.Vote Model.Election Proofs.VoteP Proofs.VoteMainP Proofs.ConfidenceP
-     Proofs.ChooseP Proofs.ElectionP Proofs.RtaShapeP Model.VoteDecide Proofs.VoteDecideP.
+     Proofs.ChooseP Proofs.ElectionP Proofs.RtaShapeP Model.VoteDecide Proofs.VoteDecideP Model.AvgCorr Proofs.AvgCorrP.
 Import ListNotations.
 Open Scope Z_scope.
 
@@ -87,6 +87,25 @@ Theorem c03_corr_range : forall q r, length q = length r ->
   ccov q r * ccov q r <= ccov q q * ccov r r.
 Proof. exact corr_in_range. Qed.
 Print Assumptions c03_corr_range.
+
+(* the AVERAGE correlation reported for the winner and for every runner-up lies in [-1,1] as well: when each
+   per-iteration correlation does (|c| <= D over the common denominator D), the fraction
+   corr_sum / where(votes > 0, votes, 1) that choose_node reports has a positive denominator and
+   |numerator| <= denominator -- for every number of iterations, leaves and types; a type without votes gets 0 *)
+Theorem c03_avg_corr_range : forall D owners its t,
+  0 < D -> (forall it, In it its -> - D <= snd it <= D) ->
+  let a := avg_corr D owners (tally_corr (length owners) its) t in
+  0 < snd a /\ - snd a <= fst a <= snd a.
+Proof. exact avg_corr_in_range. Qed.
+Print Assumptions c03_avg_corr_range.
+
+Example c03_avg_corr_example :
+  let its := [(0%nat, 1024); (2%nat, 1024); (1%nat, -1024)] in
+  (forall it, In it its -> - 1024 <= snd it <= 1024) /\
+  avg_corr 1024 [7; 9; 7] (tally_corr 3 its) 7 = (2048, 2048) /\
+  avg_corr 1024 [7; 9; 7] (tally_corr 3 its) 9 = (-1024, 1024).
+Proof. split; [|vm_compute; split; reflexivity].
+  intros it [E|[E|[E|[]]]]; subst it; cbn [snd]; split; discriminate. Qed.
 
 (* At the level of run_type_assignment, for every decision procedure and every valid taxonomy:
    the aggregate probability of every row is the running product, from the top, of the
